@@ -98,7 +98,7 @@ Verdict evalProp(Ctx& c) {
       if (semErr) { c.count("generator-ill-typed"); return pbt::discard("ill-typed-by-generator"); }
       CHECK(!unknown, "unknown-error", where + " evaluation failed with unknownError:" + got.errText);
       CHECK(!other, "undocumented-error", where + " failed with undocumented code:" + got.errText);
-      if (limit) { c.count("inconclusive-resource-limit"); return pbt::pass(); }
+      if (limit || (!ref.hasValue && ref.mayLimit)) { c.count("inconclusive-resource-limit"); return pbt::pass(); }
       CHECK(debool, "undocumented-error", where + got.errText);
       CHECK(ref.mayDebool, "spurious-debool-error", where + " fails with invalidDebool but the reference value is defined: " + (target.k == Ty::LOGIC ? std::string(ref.b ? "true" : "false") : ref.v.str()));
       if (first) { base = got; first = false; }
@@ -195,10 +195,46 @@ Verdict modelProp(Ctx& c) {
   return pbt::pass();
 }
 
+// ---- literal witnesses of repaired defects (independent of the generators: they stay valid when generators change) ----
+struct Witness { const char* name; const char* expr; bool logic; bool expectTruth; const char* expectValue; };
+const std::vector<Witness>& witnesses() {
+  // context: X1={1,2,3}, X2={1,2}, S1={(1,2),(1,3)} : ℬ(X1×X1), S2 = ℬ(X1) lazily constructible, D1=2 : X1
+  static const std::vector<Witness> w = {
+    {"enum-decl-domain-copy-clobbers-variable", "\xE2\x88\x80\xCE\xBE\xE2\x88\x88X2 \xE2\x88\x83\xCE\xB1,t,a\xE2\x88\x88" "D{\xCE\xB1\xE2\x88\x88X2|\xCE\xBE\xE2\x88\x88X2}\xE2\x88\xAAX2 \xCE\xBE=\xCE\xB1", true, true, ""},
+    {"tuple-pattern-not-last-in-enum-decl", "\xE2\x88\x83(a,y),x\xE2\x88\x88S1 (a\xE2\x88\x88X1 & y\xE2\x88\x88X1 & pr1(x)=a)", true, true, ""},
+    {"two-tuple-patterns-same-names-other-positions", "I{a|(a,b):\xE2\x88\x88S1; b=b}\xE2\x88\xAAI{a|(b,a):\xE2\x88\x88S1; b=b}", false, false, "{1,2,3}"},
+    {"imperative-value-without-identifiers", "I{1|a:\xE2\x88\x88X1}", false, false, "{1}"},
+    {"lazy-product-proper-subset", "{1}\xC3\x97X2\xE2\x8A\x82{2}\xC3\x97X2", true, false, ""},
+    {"declarative-domain-redeclares-pattern-names", "D{(a,b)\xE2\x88\x88" "D{(a,b)\xE2\x88\x88S1|a=a}|b=D1}", false, false, "{(1,2)}"},
+    {"arithmetic-overflow-is-an-error", "card(X1)*1000000*1000000>0", true, false, "LIMIT"},
+  };
+  return w;
+}
+Verdict witnessProp(Ctx& c) {
+  const auto& ws = witnesses();
+  const auto& w = ws[static_cast<size_t>(c.ipick(0, static_cast<int>(ws.size()) - 1))];
+  Gamma G;
+  auto base = [&](const char* n, int k) { Global x; x.name = n; x.isBase = true; x.type = Ty::Set(Ty::Base(n)); std::vector<Val> v; for (int i = 1; i <= k; ++i) v.push_back(Val::Int(i)); x.value = Val::Set(v); G.globals.push_back(x); };
+  base("X1", 3); base("X2", 2);
+  { Global s; s.name = "S1"; s.type = Ty::Set(Ty::Tuple({Ty::Base("X1"), Ty::Base("X1")})); s.value = Val::Set({Val::Tuple({Val::Int(1), Val::Int(2)}), Val::Tuple({Val::Int(1), Val::Int(3)})}); G.globals.push_back(s); }
+  { Global d; d.name = "D1"; d.type = Ty::Base("X1"); d.value = Val::Int(2); G.globals.push_back(d); }
+  c.show << "witness " << w.name << ": " << w.expr;
+  c.nontrivial = true;
+  c.label(std::string("witness:") + w.name);
+  c.exec();
+  const Run r = runLib(G, w.expr, rl::Syntax::MATH, false);
+  if (std::string(w.expectValue) == "LIMIT") { CHECK(!r.ok, "witness", std::string(w.name) + ": expected a resource-limit failure"); bool lim = false; for (auto e : r.errs) lim |= isLimitCode(e); CHECK(lim, "witness", std::string(w.name) + ": failed with" + r.errText); return pbt::pass(); }
+  CHECK(r.ok, "witness", std::string(w.name) + ": evaluation failed:" + r.errText);
+  if (w.logic) CHECK(r.isBool && r.b == w.expectTruth, "witness", std::string(w.name) + ": got " + (r.b ? "true" : "false"));
+  else CHECK(!r.isBool && r.v.str() == w.expectValue, "witness", std::string(w.name) + ": got " + r.v.str() + " want " + w.expectValue);
+  return pbt::pass();
+}
+
 }  // namespace
 
 int main(int argc, char** argv) {
   std::vector<pbt::Prop> props;
+  props.push_back({"witnesses", witnessProp, 0, 0, true, false, "literal expressions that exposed repaired defects, with their set-theoretic values"});
   props.push_back({"evaluate", evalProp, 2500, 40000, false, false, "type-directed expressions x contexts x data; 2-4 renderings each"});
   props.push_back({"model_calculate", modelProp, 1200, 20000, false, false, "the same content as an RSModel: Calculate + SDataFor / StatementFor vs the reference value"});
   return pbt::main(argc, argv, "C01", props);
